@@ -71,7 +71,7 @@ func vSameAST(a, b schema.ASTNode) bool {
 func vRootTemplate() []byte {
 	d := func(n string) byte { return zzverif.Digit(n) }
 	s := func(n string) byte { return zzverif.OneOf(n, "ab .:/#") }
-	switch zzverif.IntRange("root", 0, 11) {
+	switch zzverif.IntRange("root", 0, 15) {
 	case 0:
 		return []byte{'{', '"', 'a', '"', ':', ' ', d("d"), '}'}
 	case 1:
@@ -94,8 +94,16 @@ func vRootTemplate() []byte {
 		return vJoin([]byte("{\n  \"k\": "), []byte{d("d")}, []byte(" // note "), []byte{s("s")}, []byte("\n}"))
 	case 10:
 		return vJoin([]byte("[ // {minItems: 1}\n  "), []byte{d("d")}, []byte("\n]"))
-	default:
+	case 11:
 		return []byte("null")
+	case 12: // escapes inside an annotation string
+		return []byte(`"AB" // {regex: "\u0041."}`)
+	case 13: // escapes inside the value
+		return vJoin([]byte(`"\u00e9\n`), []byte{s("s")}, []byte(`\\"`))
+	case 14: // rules followed by a bare dash: an empty note
+		return vJoin([]byte{d("d")}, []byte(" // {min: 0} -"))
+	default: // a multi-line annotation with a bare dash
+		return vJoin([]byte{d("d")}, []byte(" /* {min: 0} - */"))
 	}
 }
 
